@@ -4,6 +4,7 @@ import (
 	"fmt"
 	"io"
 	"sync"
+	"sync/atomic"
 
 	"github.com/bmeg/grip/engine/pipeline"
 	"github.com/bmeg/grip/gdbi"
@@ -231,6 +232,7 @@ func (server *GripServer) BulkAdd(stream gripql.Edit_BulkAddServer) error {
 	var graphName string
 	var insertCount int32
 	var errorCount int32
+	var loadErrorCount int32 // incremented by the per-graph loader goroutines
 
 	// nil while no graph is selected (at the start and after a graph could not be resolved)
 	var elementStream chan *gdbi.GraphElement
@@ -288,7 +290,7 @@ func (server *GripServer) BulkAdd(stream gripql.Edit_BulkAddServer) error {
 				if err != nil {
 					log.WithFields(log.Fields{"graph": element.Graph, "error": err}).Error("BulkAdd: error")
 					// not a good representation of the true number of errors
-					errorCount++
+					atomic.AddInt32(&loadErrorCount, 1)
 				}
 				wg.Done()
 			}(elementStream)
@@ -324,6 +326,7 @@ func (server *GripServer) BulkAdd(stream gripql.Edit_BulkAddServer) error {
 		close(elementStream)
 	}
 	wg.Wait()
+	errorCount += atomic.LoadInt32(&loadErrorCount)
 
 	return stream.SendAndClose(&gripql.BulkEditResult{InsertCount: insertCount, ErrorCount: errorCount})
 }
